@@ -398,7 +398,9 @@ def split_uri(uri):
     else:
         try:
             scheme, netloc, path, query, fragment = parse.urlsplit(uri)
-        except UnicodeError:
+        except ValueError:
+            # UnicodeError for non-ASCII bytes, ValueError for e.g. a
+            # malformed bracketed host ("Invalid IPv6 URL")
             raise ParsingError("Bad URI")
 
     return (
